@@ -3,7 +3,7 @@
    shape, exactly the lemma naming that shape stops checking. *)
 From Coq Require Import List NArith ZArith Bool Lia.
 From FwdLib Require Import Bytes.
-From G03 Require Import Tables Tunnel Check.
+From G03 Require Import Tables Tunnel Deadlines Check.
 Import ListNotations.
 Open Scope N_scope.
 
@@ -31,11 +31,21 @@ Lemma ob_closes_upstream : closes_upstream_after_tunnel = true.
 Proof. vm_compute. reflexivity. Qed.
 Lemma ob_closes_client : closes_client_after_tunnel = true.
 Proof. vm_compute. reflexivity. Qed.
-(* the request's read deadline does not stay armed during the tunnel *)
-Lemma ob_read_deadline_cleared : tunnel_clears_read_deadline = true.
+(* every deadline statement of the hand-over (readRequest, writeResponse, tunnel) that arms a
+   deadline on the client connection is followed by one that clears it; the copy phase has none *)
+Lemma ob_handover_ops_known : handover_ops <> None.
+Proof. vm_compute. discriminate. Qed.
+Lemma ob_handover_clears_deadlines :
+  match handover_ops with Some ops => clears_all ops | None => false end = true.
 Proof. vm_compute. reflexivity. Qed.
-(* ... nor the write deadline armed for writing the reply head *)
-Lemma ob_write_deadline_cleared : response_write_deadline_cleared = true.
+Lemma no_deadline_survives_tables : forall (c : timeouts) ops prior times,
+  handover_ops = Some ops -> length times = length ops ->
+  exec c (prior ++ combine ops times) (None, None) = (None, None).
+Proof.
+  intros c ops prior times E L. apply no_deadline_survives; [|exact L].
+  pose proof ob_handover_clears_deadlines as H. rewrite E in H. exact H.
+Qed.
+Lemma ob_copy_phase_sets_no_deadline : copy_phase_sets_no_deadline = true.
 Proof. vm_compute. reflexivity. Qed.
 (* the reply written for a CONNECT is a 2xx head and nothing else *)
 Lemma ob_connect_reply_is_2xx_head : reply_ok connect_ok_response = true.
@@ -44,7 +54,7 @@ Proof. vm_compute. reflexivity. Qed.
 Lemma shape_ok_tables g : (0 <= g)%Z -> shape_ok (tables_shape g).
 Proof.
   intro Hg. unfold shape_ok.
-  refine (conj _ (conj _ (conj _ (conj _ (conj _ (conj _ (conj _ (conj _ (conj _ _))))))))).
+  refine (conj _ (conj _ (conj _ (conj _ (conj _ (conj _ (conj _ _))))))).
   - exact ob_drain_before_copiers.
   - exact ob_drained_bytes_not_reread.
   - exact ob_closewrite_after_copy.
@@ -53,8 +63,6 @@ Proof.
   - exact Hg.
   - exact ob_closes_upstream.
   - exact ob_closes_client.
-  - exact ob_read_deadline_cleared.
-  - exact ob_write_deadline_cleared.
 Qed.
 
 (* a concrete run with early data, a banner, a half-close in each direction and both closes *)
@@ -62,7 +70,7 @@ Definition example_run_ok : bool :=
   let tr := [LWrite TC [9]; LReply; LDrain [1;2]; LWrite CT [3]; LRead CT [3]; LRead TC [9]; LDeliver CT [3];
              LShutdown CT; LReadEOF CT; LCloseWrite CT; LDeliver TC [9]; LWrite TC [8]; LRead TC [8]; LDeliver TC [8];
              LShutdown TC; LReadEOF TC; LCloseWrite TC; LClose Up; LClose Down] in
-  match run (tables_shape grace_ns) (init [1;2] [] []) tr with
+  match run (tables_shape grace_ns) (init [1;2] [] [] None None) tr with
   | Some s => str_eqb (d_rcv (s_ct s)) [1;2;3] && str_eqb (d_rcv (s_tc s)) [9;8] && s_up s && s_down s && negb (s_forced s)
               && d_eof (s_ct s) && d_eof (s_tc s)
   | None => false
@@ -74,7 +82,7 @@ Proof. vm_compute. reflexivity. Qed.
 Definition grace_cut_trace : list label :=
   [LReply; LShutdown CT; LReadEOF CT; LCloseWrite CT; LWrite TC [1]; LTick grace_ns; LClose Down].
 Definition grace_cut_ok : bool :=
-  match run (tables_shape grace_ns) (init [] [] []) grace_cut_trace with
+  match run (tables_shape grace_ns) (init [] [] [] None None) grace_cut_trace with
   | Some s => d_eof (s_tc s) && negb (d_wcl (s_tc s)) && is_nil (d_rcv (s_tc s)) && s_forced s
               && str_eqb (d_all (s_tc s)) [1]
   | None => false
@@ -83,33 +91,33 @@ Lemma ob_grace_cut_witness : grace_cut_ok = true.
 Proof. vm_compute. reflexivity. Qed.
 
 (* ---- each shape hypothesis is needed: the same LTS with one shape flipped breaks the property ---- *)
-Definition good_shape : shape := mkShape 4 10 true false true true true true true true.
-Definition run_from (sh : shape) (e : list N) (tr : list label) : option state := run sh (init e [] []) tr.
+Definition good_shape : shape := mkShape 4 10 true false true true true true.
+Definition run_from (sh : shape) (e : list N) (tr : list label) : option state := run sh (init e [] [] None None) tr.
 
 (* without drainBuffer between the reply and the copiers the early bytes never arrive *)
 Lemma ob_shape_no_drain_loses_early :
-  match run_from (mkShape 4 10 false false true true true true true true) [7;8]
+  match run_from (mkShape 4 10 false false true true true true) [7;8]
           [LReply; LShutdown CT; LReadEOF CT; LCloseWrite CT; LShutdown TC; LReadEOF TC; LCloseWrite TC; LClose Up; LClose Down] with
   | Some s => is_nil (d_rcv (s_ct s)) && d_eof (s_ct s) && str_eqb (d_all (s_ct s)) [7;8]
   | None => false end = true.
 Proof. vm_compute. reflexivity. Qed.
 (* peeking in drainBuffer while the upstream copier reads the same bufio reader duplicates them *)
 Lemma ob_shape_reread_duplicates_early :
-  match run_from (mkShape 4 10 true true true true true true true true) [7;8]
+  match run_from (mkShape 4 10 true true true true true true) [7;8]
           [LReply; LDrain [7;8]; LRead CT [7;8]; LDeliver CT [7;8]] with
   | Some s => str_eqb (d_rcv (s_ct s)) [7;8;7;8]
   | None => false end = true.
 Proof. vm_compute. reflexivity. Qed.
 (* without CloseWrite after the copy the sink never sees end-of-stream while the tunnel is open *)
 Lemma ob_shape_no_closewrite_no_eof :
-  match run_from (mkShape 4 10 true false false true true true true true) []
+  match run_from (mkShape 4 10 true false false true true true) []
           [LReply; LShutdown CT; LReadEOF CT; LCloseWrite CT] with
   | Some s => negb (d_eof (s_ct s)) && cop_eqb (d_cop (s_ct s)) Done
   | None => false end = true.
 Proof. vm_compute. reflexivity. Qed.
 (* returning from bicopy after the first copier cuts the other direction at once *)
 Lemma ob_shape_wait_first_cuts_other :
-  match run_from (mkShape 4 10 true false true false true true true true) []
+  match run_from (mkShape 4 10 true false true false true true) []
           [LReply; LWrite TC [5]; LShutdown CT; LReadEOF CT; LCloseWrite CT; LClose Down] with
   | Some s => d_eof (s_tc s) && is_nil (d_rcv (s_tc s)) && negb (d_wcl (s_tc s))
   | None => false end = true.
@@ -121,20 +129,24 @@ Lemma ob_good_shape_refuses :
      None => true | Some _ => false end = true.
 Proof. vm_compute. reflexivity. Qed.
 
-(* a read deadline left armed lets the client-side copier fail at any time: the target is shown
-   end-of-stream in the middle of the client's data *)
-Lemma ob_shape_armed_deadline_cuts_client_stream :
-  match run_from (mkShape 4 10 true false true true true true false true) []
-          [LReply; LWrite CT [1;2]; LAbort CT; LCloseWrite CT] with
+(* a deadline that survives the hand-over lets the copier using the client connection fail once it
+   has passed — and not before: the target (client) is shown end-of-stream in the middle of the stream *)
+Lemma ob_armed_read_deadline_cuts_client_stream :
+  match run good_shape (init [] [] [] (Some 600%Z) None)
+          [LReply; LWrite CT [1;2]; LTick 600; LAbort CT; LCloseWrite CT] with
   | Some s => d_eof (s_ct s) && is_nil (d_rcv (s_ct s)) && negb (d_wcl (s_ct s)) && negb (s_forced s)
-  | None => false end = true.
+  | None => false end
+  && match run good_shape (init [] [] [] (Some 600%Z) None) [LReply; LWrite CT [1;2]; LTick 599; LAbort CT] with
+     | None => true | Some _ => false end = true.
 Proof. vm_compute. reflexivity. Qed.
-
-(* a write deadline left armed on the client connection lets the downstream copier fail: the
-   client is shown end-of-stream with the target's later bytes missing *)
-Lemma ob_shape_armed_write_deadline_cuts_target_stream :
-  match run_from (mkShape 4 10 true false true true true true true false) []
-          [LReply; LWrite TC [1;2]; LRead TC [1;2]; LAbort TC; LCloseWrite TC] with
+Lemma ob_armed_write_deadline_cuts_target_stream :
+  match run good_shape (init [] [] [] None (Some 500%Z))
+          [LReply; LWrite TC [1;2]; LRead TC [1;2]; LTick 500; LAbort TC; LCloseWrite TC] with
   | Some s => d_eof (s_tc s) && is_nil (d_rcv (s_tc s)) && negb (d_wcl (s_tc s)) && negb (s_forced s)
   | None => false end = true.
 Proof. vm_compute. reflexivity. Qed.
+(* the statement list matters: without the clearing in tunnel() a configured ReadTimeout survives,
+   without the deferred clearing a configured WriteTimeout does *)
+Lemma ob_deadline_survives_without_clearing :
+  survives_without_rclear = (Some 601%Z, None) /\ survives_without_wclear = (None, Some 502%Z).
+Proof. vm_compute. split; reflexivity. Qed.
